@@ -159,6 +159,9 @@ pub enum Outcome {
 pub struct Exec {
     pub outcome: Outcome,
     pub report: Report,
+    /// native stack the call used below the caller's frame, as far as the hooks saw it (0 = no
+    /// hook ran / hooks not compiled in)
+    pub stack_used: usize,
 }
 
 impl Exec {
@@ -285,11 +288,17 @@ pub fn exec_with(src: &str, budget: Budget) -> Exec {
     #[cfg(not(feature = "hooks"))]
     let _ = budget;
     let owned = src;
+    let stack_probe = 0u8;
+    let stack_base = std::ptr::addr_of!(stack_probe) as usize;
     let r = catch_unwind(AssertUnwindSafe(|| lex_program(&owned)));
     #[cfg(feature = "hooks")]
     let report = sas_lexer::verif::take();
     #[cfg(not(feature = "hooks"))]
     let report = Report::default();
+    #[cfg(feature = "hooks")]
+    let stack_used = if report.lowest_stack_addr == 0 { 0 } else { stack_base.saturating_sub(report.lowest_stack_addr) };
+    #[cfg(not(feature = "hooks"))]
+    let stack_used = { let _ = stack_base; 0usize };
     QUIET.with(|q| *q.borrow_mut() = false);
     let outcome = match r {
         Ok(Ok(res)) => Outcome::Ok(res),
@@ -319,7 +328,7 @@ pub fn exec_with(src: &str, budget: Budget) -> Exec {
             }
         }
     };
-    Exec { outcome, report }
+    Exec { outcome, report, stack_used }
 }
 
 /// Plain call without hooks armed (hooks stay disarmed => pure pass-through), panics caught.
